@@ -176,10 +176,10 @@ class Ctx:
                               "generated": r.generated, "distinct": r.distinct, "wall_s": round(r.wall, 2)})
         return r
 
-    def model_check(self, module, cfg, workers=8, timeout=900, coverage=False, expect_ok=True):
+    def model_check(self, module, cfg, workers=8, timeout=900, coverage=False, expect_ok=True, extra=None):
         """Run an exhaustive configuration of a design spec; a violation there is a defect of the
         machinery (spec/design mismatch), reported as exit 2, never as a property violation."""
-        r = self.tlc(module, cfg, workers=workers, timeout=timeout, coverage=coverage)
+        r = self.tlc(module, cfg, workers=workers, timeout=timeout, coverage=coverage, extra=extra)
         if expect_ok and not r.ok:
             raise Infra("design model %s/%s did not pass TLC (rc=%d, %s):\n%s" % (
                 module, cfg, r.rc, r.violated, tail(r.out, 60)))
